@@ -88,8 +88,20 @@ def tolerance(dtype: np.dtype) -> float:
     return 1e-9
 
 
-def compare(got: np.ndarray, ref: np.ndarray, declared: np.dtype, scale: float
-            ) -> str | None:
+def single_precision_involved(data: dict[str, np.ndarray], values: list) -> bool:
+    """True if any input or NumPy intermediate is float32 / complex64: the
+    two sides may then legitimately round at single precision at different
+    places (e.g. where NumPy keeps float32 and pytato's declared dtype is
+    float64), so the comparison uses the single-precision tolerance."""
+    for v in list(data.values()) + [x for x in values if isinstance(x, (np.ndarray,
+                                                                        np.generic))]:
+        if np.asarray(v).dtype in (np.dtype(np.float32), np.dtype(np.complex64)):
+            return True
+    return False
+
+
+def compare(got: np.ndarray, ref: np.ndarray, declared: np.dtype, scale: float,
+            single: bool = False) -> str | None:
     """None if equal; otherwise a short description.  Integer / boolean
     results exactly, floating point within tol * (1 + scale) with NaNs
     compared positionally and +-0 identified."""
@@ -106,7 +118,8 @@ def compare(got: np.ndarray, ref: np.ndarray, declared: np.dtype, scale: float
             return (f"value mismatch at flat index {k}: {got.reshape(-1)[k]} vs NumPy "
                     f"{ref.reshape(-1)[k]}")
         return None
-    tol = max(tolerance(declared), tolerance(ref.dtype) if ref.dtype.kind in "fc" else 0.0)
+    tol = max(tolerance(declared), tolerance(ref.dtype) if ref.dtype.kind in "fc" else 0.0,
+              2e-4 if single else 0.0)
     with warnings.catch_warnings():
         warnings.simplefilter("ignore")
         g = got.astype(np.complex128) if got.dtype.kind == "c" or ref.dtype.kind == "c" \
@@ -143,3 +156,16 @@ def scale_of(data: dict[str, np.ndarray], values: list) -> float:
                 if a.size:
                     m = max(m, float(a.max()))
     return m
+
+
+def int_overflow_risk(values: list, bits_small: bool = True) -> bool:
+    """True if a NumPy integer intermediate is large enough that a narrower
+    accumulator could overflow (pytato keeps int32 where NumPy accumulates in
+    int64): signed overflow is undefined behaviour in C, outside the contract."""
+    for v in values:
+        if isinstance(v, (np.ndarray, np.generic)):
+            a = np.asarray(v)
+            if a.dtype.kind in "iu" and a.size:
+                if int(np.abs(a.astype(np.int64)).max()) >= 2 ** 30:
+                    return True
+    return False
